@@ -451,6 +451,7 @@ fn op_eval(ctx: &mut Context, req: &J) -> J {
     let want_stmts = req.get("stmts").and_then(|v| v.as_bool()).unwrap_or(true);
     let want_html = req.get("html").and_then(|v| v.as_bool()).unwrap_or(false);
     let render = req.get("render").and_then(|v| v.as_bool()).unwrap_or(true);
+    let want_value = req.get("value").and_then(|v| v.as_bool()).unwrap_or(true);
     let opts = format_options(req);
 
     let prints: Arc<Mutex<Vec<Markup>>> = Arc::new(Mutex::new(vec![]));
@@ -525,7 +526,11 @@ fn op_eval(ctx: &mut Context, req: &J) -> J {
                 }
                 match &res {
                     InterpreterResult::Value(v) => {
-                        r.insert("value".into(), out::value_json(v));
+                        if want_value {
+                            r.insert("value".into(), out::value_json(v));
+                        } else {
+                            r.insert("value".into(), json!({"t": "omitted"}));
+                        }
                         r.insert("val_text".into(), json!(plain(&v.pretty_print_with(&opts))));
                     }
                     InterpreterResult::Continue => {
